@@ -255,7 +255,10 @@ def cases():
     rnd = random.Random(200 + common.SEED)
     out = []
     meshes = families.curated_meshes()
-    fsets = families.FIELD_SETS
+    fsets = families.FIELD_SETS + [['density', 'density'], ['Y(H2)', 'Y(H2)', 'Y(H2)'], ['a', 'a_2', 'a'], ['t']]
+    for i, m in enumerate(meshes[:4]):
+        out.append({'label': '%s/repeated%d' % (m.name, i), 'mesh': m, 'fields': fsets[len(families.FIELD_SETS) + i],
+                    'layout': families.scatter_layouts(m, rnd, max_files=2), 'ref_extra': i % 2})
     for i, m in enumerate(meshes):
         for k in range(1 if tier == 'quick' else 3):
             out.append({'label': '%s/k%d' % (m.name, k), 'mesh': m, 'fields': fsets[(i + k + 4) % len(fsets)],
